@@ -17,24 +17,24 @@ var (
 )
 
 type Profile struct {
-	Name                                                              string
+	Name                                                               string
 	Upload, Resumable, GetMeta, GetMedia, Patch, Delete, Compose, Copy int
-	List, ListBad, MkBucket, RmBucket, Reopen, GetBucket              int
-	CondPct                                                           int // chance (%) that a mutating op carries conditions
-	Names                                                             []string
-	MinOps, MaxOps                                                    int
-	ReadBack                                                          bool // GET metadata+media after every mutation
+	List, ListBad, MkBucket, RmBucket, Reopen, GetBucket               int
+	CondPct                                                            int // chance (%) that a mutating op carries conditions
+	Names                                                              []string
+	MinOps, MaxOps                                                     int
+	ReadBack                                                           bool // GET metadata+media after every mutation
 }
 
 var Profiles = map[string]Profile{
-	"c02": {Name: "c02", Upload: 40, Resumable: 25, GetMeta: 8, GetMedia: 12, Delete: 10, List: 3, MkBucket: 2, CondPct: 8, Names: SafeNames, MinOps: 6, MaxOps: 30, ReadBack: true},
-	"c04": {Name: "c04", Upload: 30, Resumable: 10, Patch: 20, Delete: 15, Compose: 15, GetMeta: 5, CondPct: 85, Names: SafeNames[:4], MinOps: 8, MaxOps: 30, ReadBack: true},
-	"c09": {Name: "c09", Upload: 30, Resumable: 8, Patch: 12, Delete: 10, Compose: 6, Copy: 8, GetMeta: 5, GetMedia: 5, List: 8, MkBucket: 3, RmBucket: 2, GetBucket: 2, CondPct: 20, Names: SafeNames, MinOps: 8, MaxOps: 40, ReadBack: true},
-	"c09r": {Name: "c09r", Upload: 30, Resumable: 8, Patch: 12, Delete: 10, Compose: 6, Copy: 8, GetMeta: 5, GetMedia: 5, List: 8, MkBucket: 3, RmBucket: 2, Reopen: 10, GetBucket: 2, CondPct: 20, Names: SafeNames, MinOps: 8, MaxOps: 40, ReadBack: true},
-	"c10": {Name: "c10", Upload: 35, Resumable: 5, Patch: 30, Delete: 8, Compose: 6, Copy: 8, GetMeta: 4, GetMedia: 4, List: 4, CondPct: 25, Names: SafeNames[:5], MinOps: 10, MaxOps: 60, ReadBack: true},
-	"c11": {Name: "c11", Upload: 40, Delete: 8, List: 45, ListBad: 4, RmBucket: 1, CondPct: 0, Names: SafeNames, MinOps: 10, MaxOps: 40},
+	"c02":    {Name: "c02", Upload: 40, Resumable: 25, GetMeta: 8, GetMedia: 12, Delete: 10, List: 3, MkBucket: 2, CondPct: 8, Names: SafeNames, MinOps: 6, MaxOps: 30, ReadBack: true},
+	"c04":    {Name: "c04", Upload: 30, Resumable: 10, Patch: 20, Delete: 15, Compose: 15, GetMeta: 5, CondPct: 85, Names: SafeNames[:4], MinOps: 8, MaxOps: 30, ReadBack: true},
+	"c09":    {Name: "c09", Upload: 30, Resumable: 8, Patch: 12, Delete: 10, Compose: 6, Copy: 8, GetMeta: 5, GetMedia: 5, List: 8, MkBucket: 3, RmBucket: 2, GetBucket: 2, CondPct: 20, Names: SafeNames, MinOps: 8, MaxOps: 40, ReadBack: true},
+	"c09r":   {Name: "c09r", Upload: 30, Resumable: 8, Patch: 12, Delete: 10, Compose: 6, Copy: 8, GetMeta: 5, GetMedia: 5, List: 8, MkBucket: 3, RmBucket: 2, Reopen: 10, GetBucket: 2, CondPct: 20, Names: SafeNames, MinOps: 8, MaxOps: 40, ReadBack: true},
+	"c10":    {Name: "c10", Upload: 35, Resumable: 5, Patch: 30, Delete: 8, Compose: 6, Copy: 8, GetMeta: 4, GetMedia: 4, List: 4, CondPct: 25, Names: SafeNames[:5], MinOps: 10, MaxOps: 60, ReadBack: true},
+	"c11":    {Name: "c11", Upload: 40, Delete: 8, List: 45, ListBad: 4, RmBucket: 1, CondPct: 0, Names: SafeNames, MinOps: 10, MaxOps: 40},
 	"c11mem": {Name: "c11mem", Upload: 40, Delete: 8, List: 45, ListBad: 4, CondPct: 0, Names: MemNames, MinOps: 10, MaxOps: 40},
-	"c15": {Name: "c15", Upload: 30, Compose: 30, Copy: 25, Delete: 5, GetMeta: 3, GetMedia: 5, Patch: 5, CondPct: 15, Names: SafeNames, MinOps: 8, MaxOps: 30, ReadBack: true},
+	"c15":    {Name: "c15", Upload: 30, Compose: 30, Copy: 25, Delete: 5, GetMeta: 3, GetMedia: 5, Patch: 5, CondPct: 15, Names: SafeNames, MinOps: 8, MaxOps: 30, ReadBack: true},
 	"c15mem": {Name: "c15mem", Upload: 30, Compose: 30, Copy: 25, Delete: 5, GetMedia: 5, CondPct: 10, Names: MemNames, MinOps: 8, MaxOps: 30, ReadBack: true},
 }
 
